@@ -90,3 +90,118 @@ def md5_digest(key):
 
 def sha256_digest(key):
     return sha256(key).digest()
+
+
+# ---- Bloom filters ----------------------------------------------------------------------------
+def inv_bloom(s):
+    """representation invariant shared by the in-memory and the on-disk Bloom filter"""
+    return (s._num_bits >= 1 and s._number_hashes >= 1 and s._bloom_length == cdiv(s._num_bits, 8)
+            and len(s._bloom) >= s._bloom_length)
+
+
+def hit(hashes, n, m, k):
+    """position k is selected by one of the first n hashes (position = hash mod number_bits)"""
+    return any(hashes[j] % m == k for j in range(0, n))
+
+
+# ---- reals (native versions; symbolically these are uninterpreted real functions) -----------------
+def f32(x):
+    """narrow to IEEE binary32 and widen back (what struct 'f' does; mimics the C float)"""
+    import struct
+    return struct.unpack("f", struct.pack("f", float(x)))[0]
+
+
+def ln(x):
+    import math
+    return math.log(x)
+
+
+def exp_(x):
+    import math
+    return math.exp(x)
+
+
+def log2_(x):
+    import math
+    return math.log2(x)
+
+
+def pow_(x, y):
+    import math
+    return math.pow(x, y)
+
+
+def ceil_(x):
+    import math
+    return math.ceil(x)
+
+
+def bloom_m(n, p32):
+    """number of bits the library derives: ceil(-n ln(p) / ln(2)^2) with the code's constant"""
+    return ceil_((-n * ln(p32)) / 0.4804530139182)
+
+
+def bloom_k(n, m):
+    """number of hashes: round(ln 2 * m / n) with the code's constant"""
+    return int(round(0.6931471805599453 * m / n))
+
+
+def geo_bloom(s):
+    """the geometry is the one the library derives from (estimated_elements, float32 rate)"""
+    return (s._est_elements >= 1 and s._fpr == f32(s._fpr) and 0 < s._fpr < 1
+            and s._num_bits == bloom_m(s._est_elements, s._fpr)
+            and s._number_hashes == bloom_k(s._est_elements, s._num_bits))
+
+
+def inv_bloom_mem(s):
+    """in-memory Bloom filter: byte array of exactly bloom_length bytes"""
+    return inv_bloom(s) and len(s._bloom) == s._bloom_length
+
+
+def popcount_bytes(arr, n):
+    """number of set bits in arr[0:n]"""
+    return sum(bin(arr[i]).count("1") for i in range(0, n))
+
+
+def strategy(func, key, depth):
+    """a hashing strategy applied to (key, depth)"""
+    return func(key, depth)
+
+
+def est_elements_formula(m, k, x):
+    """-(m/k) ln(1 - X/m), truncated toward zero"""
+    return int(-1 * (float(m) / float(k)) * ln(1 - (float(x) / float(m))))
+
+
+def compatible_blooms(a, b):
+    """what the library tests before union / intersection / jaccard: same number of hashes, same
+    number of bits, same answer of the two hashing strategies on a probe key"""
+    return (a._number_hashes == b._number_hashes and a._num_bits == b._num_bits
+            and strategy(a._hash_func, "test", a._number_hashes) == strategy(b._hash_func, "test", b._number_hashes))
+
+
+def popcount_or(a, b, n):
+    return sum(bin(a[i] | b[i]).count("1") for i in range(0, n))
+
+
+def popcount_and(a, b, n):
+    return sum(bin(a[i] & b[i]).count("1") for i in range(0, n))
+
+
+def inv_bloom_disk(s):
+    """on-disk filter: the mapped file is the bit array followed by the 20-byte footer"""
+    return inv_bloom(s) and len(s._bloom) == s._bloom_length + 20
+
+
+def le_bytes(arr, off, width):
+    """little-endian unsigned integer stored in arr[off:off+width]"""
+    return sum(arr[off + i] * 256 ** i for i in range(0, width))
+
+
+def fp_open(s):
+    return s._BloomFilterOnDisk__file_pointer is not None and not s._BloomFilterOnDisk__file_pointer.closed
+
+
+def be_bytes(arr, off, width):
+    """big-endian unsigned integer stored in arr[off:off+width]"""
+    return sum(arr[off + i] * 256 ** (width - 1 - i) for i in range(0, width))
